@@ -200,6 +200,9 @@ def replay_to_polygon(ctx, rnd, st, wlo, whi, idx, pid='C01'):
     fr = pick_frame(rnd, U)
     try:
         region = geom.build(s, fr)
+        if idx % 3 == 1 and float(region.width) == int(region.width) and float(region.height) == int(region.height) and max(region.width, region.height) < 250:
+            # whole-number sizes handed over as unsigned numpy integers (a size read from an image header): still the same rectangle
+            region = type(region)(region.center, np.uint8(region.width), np.uint16(region.height), angle=region.angle)
         region.meta['label'] = 'kept'
         region.visual['color'] = 'red'
         poly = region.to_polygon()
